@@ -186,6 +186,7 @@ def contracts(T: Types, reg: Registry, ctx, pid="C01"):
         ])},
         cases=[Case("registered", ensures=[
             ("result-is-REGISTERED", lambda c: T.Record.get(c.result, "status") == T.S("REGISTERED")),
+            ("registered-by-the-given-runner", lambda c: T.Record.get(c.result, "runner_id") == c.arg("runner_id")),
             ("exactly-the-given-ids-written", lambda c: reg_progress(c, z3.Length(c.arg("invocations")), c.result)),
         ])],
         properties=[pid],
